@@ -52,4 +52,4 @@ MANIFEST = {
     "technique": "Lean 4 proof (accounting invariants by induction over buffering and request building, exact length lemmas) with differential "
                  "correspondence and an executable reference-decoder Spec evaluated on the implementation's bytes",
 }
-PENDING = True  # model being updated to fix commits e8757ce / c322dee
+PENDING = "not claimed at the moment (the technique applies): the check exists (16 theorems, differential tie) and found two defects that were repaired in /repo (e8757ce, c322dee); the Lean model is being re-transcribed to the repaired accounting and the property is claimed again when the check passes on the repaired tree"
